@@ -212,12 +212,19 @@ def run(ctx):
     for i in range(n_big):
         n = int(rng.integers(2, 7))
         f = gen.random_forest(rng, n, max_children=4, shape=[None, "star", "bushy"][i % 3], n_tops=[None, 3][i % 2])
-        cases.append({"id": cid, "mode": "interval", "forest": f.describe(), "G": [999, 1000, 1001, 1201][i % 4],
-                      "D": 1 + i % 2, "kind": ["moderate", "smooth", "peaked", "emission"][(i // 4) % 4], "shuffle": False,
+        cases.append({"id": cid, "mode": "interval", "forest": f.describe(), "G": [999, 1000, 1001, 1201, 501][i % 5],
+                      "D": [1, 2, 3][(i // 5 + i) % 3], "kind": ["moderate", "smooth", "peaked", "emission"][(i // 4) % 4], "shuffle": False,
                       "warm": bool(i % 2)})
         cid += 1
-    big = [c for c in cases if c["G"] >= 999]
-    small = [c for c in cases if c["G"] < 999]
+    # many samples on a small grid (samples x grid points beyond 1000 while the grid itself is below it)
+    for i in range(6 if quick else 60):
+        n = int(rng.integers(2, 6))
+        f = gen.random_forest(rng, n, max_children=4, shape=[None, "star"][i % 2], n_tops=[2, None][i % 2])
+        cases.append({"id": cid, "mode": "interval", "forest": f.describe(), "G": [101, 201][i % 2], "D": [10, 12, 6][i % 3],
+                      "kind": ["peaked", "binom", "smooth"][i % 3], "shuffle": False, "warm": bool(i % 2)})
+        cid += 1
+    big = [c for c in cases if c["G"] >= 500 or c["D"] >= 6]
+    small = [c for c in cases if not (c["G"] >= 500 or c["D"] >= 6)]
     tasks = [{"seed": ctx.seed, "cases": [c]} for c in big]
     for i in range(0, len(small), 40):
         tasks.append({"seed": ctx.seed, "cases": small[i:i + 40]})
